@@ -150,6 +150,8 @@ func init() {
 		"(*sync.RWMutex).RLock":   extMutexLock,
 		"(*sync.RWMutex).RUnlock": extMutexUnlock,
 
+		"(*sync.Pool).Get":                  extPoolGet,
+		"(*sync.Pool).Put":                  extPoolPut,
 		"(*sync/atomic.Value).Load":         extAtomicValueLoad,
 		"(*sync/atomic.Value).Store":        extAtomicValueStore,
 		"sync/atomic.LoadPointer":           extAtomicLoad,
@@ -1035,6 +1037,46 @@ func extMutexUnlock(fr *frame, args []value) value {
 	if fr.i.px.locksHeld > 0 {
 		fr.i.px.locksHeld--
 	}
+	return nil
+}
+
+// sync.Pool: a per-path LIFO free list (Get may return any pooled item; the
+// most recently returned one is the choice the Go runtime makes on one P).
+func extPoolGet(fr *frame, args []value) value {
+	p := args[0].(*value)
+	if p == nil {
+		derefNil(fr)
+	}
+	px := fr.i.px
+	if l := px.pools[p]; len(l) > 0 {
+		it := l[len(l)-1]
+		px.pools[p] = l[:len(l)-1]
+		return it
+	}
+	st := (*p).(structure)
+	newFn := st[len(st)-1]
+	switch f := newFn.(type) {
+	case *ssa.Function:
+		if f == nil {
+			return iface{}
+		}
+	}
+	return call(fr.i, fr, token.NoPos, newFn, nil)
+}
+
+func extPoolPut(fr *frame, args []value) value {
+	p := args[0].(*value)
+	if p == nil {
+		derefNil(fr)
+	}
+	px := fr.i.px
+	if px.pools == nil {
+		px.pools = map[*value][]value{}
+	}
+	if it, ok := args[1].(iface); ok && it.t == nil {
+		return nil
+	}
+	px.pools[p] = append(px.pools[p], args[1])
 	return nil
 }
 
